@@ -159,7 +159,7 @@ struct LqRun {
         env.lib_calls += 2;
         size_t n = R.jv_lq_get_marshalled_length(view, oks[k], comp);
         env.check(n == mb.size(), "C15", "length:matches-format", strf("%s get_marshalled_length = %zu, the format needs %zu", names[k], n, mb.size()));
-        size_t pad = R.info.sanitized ? 0 : 32; MBytes b(n + pad, (size_t) (env.step % 5) * 3, 0xA5); R.jv_lq_marshal(view, oks[k], b.p, *obj, comp);
+        size_t pad = (R.info.sanitized && (env.step & 1)) ? 0 : 256; MBytes b(n + pad, (size_t) (env.step % 5) * 3, 0xA5); R.jv_lq_marshal(view, oks[k], b.p, *obj, comp);
         for (size_t i = n; i < n + pad; i++) env.check(b.p[i] == 0xA5, "C15", "marshal:writes-exactly-reported-length", std::string(names[k]) + " marshal wrote beyond the reported length");
         std::vector<uint8_t> bytes(b.p, b.p + n);
         env.check(bytes == mb, "C15", "marshal:layout", std::string(names[k]) + " bytes differ from the format");
